@@ -27,6 +27,8 @@ var (
 	flagDumpSig = flag.String("verif.dumpsig", "", "write one line per run: index, schedule signature, tape hash (determinism self-test)")
 	flagNoShrk  = flag.Bool("verif.noshrink", false, "do not minimise")
 	flagKeepOn  = flag.Bool("verif.keepgoing", false, "continue after a violation (count them)")
+	flagRuleInc = flag.String("verif.ruleprefix", "", "comma separated rule prefixes that belong to the property being checked (empty: all)")
+	flagRuleExc = flag.String("verif.ruleexclude", "", "comma separated rule prefixes that belong to another property")
 	flagKnown   = flag.String("verif.known", "", "comma separated rule names of listed known findings: reported once per worker without minimisation, exploration continues")
 )
 
@@ -293,6 +295,11 @@ func Main(t *testing.T, e Engine) {
 				fmt.Fprintf(os.Stderr, "HARNESS PANIC run=%d: %s\n", idx, r.Fail.Msg)
 				os.Exit(2)
 			}
+			if !ruleBelongs(r.Fail.Rule) {
+				// a rule of another property served by the same engine: not this check's business
+				st.Probes["other-property-rule."+r.Fail.Rule]++
+				continue
+			}
 			if known[r.Fail.Rule] {
 				st.Probes["known-finding."+r.Fail.Rule]++
 				if knownSeen[r.Fail.Rule] {
@@ -430,4 +437,24 @@ func sum(a []uint32) (s uint64) {
 		s += uint64(v)
 	}
 	return
+}
+
+func ruleBelongs(rule string) bool {
+	if rule == "harness-panic" {
+		return true
+	}
+	for _, p := range strings.Split(*flagRuleExc, ",") {
+		if p != "" && strings.HasPrefix(rule, p) {
+			return false
+		}
+	}
+	if *flagRuleInc == "" {
+		return true
+	}
+	for _, p := range strings.Split(*flagRuleInc, ",") {
+		if p != "" && strings.HasPrefix(rule, p) {
+			return true
+		}
+	}
+	return false
 }
